@@ -123,8 +123,13 @@ class World:
 
     objects: tag `Class#id+attr+attr` = the instance `id` of Class with these attributes set."""
 
+    # user subclasses of the builtin containers and of str (they override nothing)
+    DEFAULT_DECL = {'MyDict': 'dict', 'MyList': 'list', 'MyTuple': 'tuple', 'MySet': 'set',
+                    'MyFset': 'frozenset', 'MyStr': 'str'}
+
     def __init__(self, decl=None):
-        self.decl = {n: b for n, b in (decl or [])}
+        self.decl = dict(self.DEFAULT_DECL)
+        self.decl.update({n: b for n, b in (decl or [])})
         self.classes = {}
         self.objs = {}
 
@@ -190,6 +195,13 @@ def dec_v(j):
         return j['s']
     if 'obj' in j:
         return WORLD.obj(j['obj']) if '#' in j['obj'] else Obj(j['obj'])
+    if 'sub' in j:
+        # an instance of a user SUBCLASS of the builtin class of the content
+        base = dec_v(j['v'])
+        cls = WORLD.cls(j['sub'])
+        if type(base) not in cls.__mro__:
+            raise ValueError('%s is not a subclass of %s' % (j['sub'], type(base).__name__))
+        return cls(base)
     if 'l' in j:
         return [dec_v(x) for x in j['l']]
     if 't' in j:
@@ -239,6 +251,9 @@ def enc_v(v):
         return {'obj': 'rawT'}
     if type(v) is Color:
         return {'obj': 'Color#' + v.name}
+    for b in (dict, list, tuple, set, frozenset, str):
+        if isinstance(v, b) and WORLD.classes.get(type(v).__name__) is type(v):
+            return {'sub': type(v).__name__, 'v': enc_v(b(v))}
     tag = getattr(v, '__dict__', {}).get('_vtag')
     if isinstance(tag, str):
         return {'obj': tag}
@@ -1106,6 +1121,9 @@ def check_cases(rng, per_combo):
                     else:
                         spec = {'k': 'switch', 'cases': [[j, {'k': 'val', 'v': jv('hit')}]], 'd': None}
                 yield {'spec': spec, 'target': jv(t)}
+            if rng.random() < 0.3:
+                # an instance of a user subclass: `type=` is exact, `instance_of=` is isinstance
+                yield {'spec': j, 'target': rng.choice(SUB_REPS_J)}
 
 
 def ctor_cases():
@@ -1124,6 +1142,10 @@ def ctor_cases():
             yield {'spec': {'k': 'check', 'type': {'many': ['int', 'str'], 'as': kind}, 'd': {'c': jv('d')}},
                    'target': jv(t)}
             yield {'spec': {'k': 'check', 'one_of': [jv(1), jv('a')], 'one_of_as': kind}, 'target': jv(t)}
+    for sj in SUB_REPS_J:
+        for tn in ('dict', 'str', 'list', 'MyDict', 'Mapping'):
+            yield {'spec': {'k': 'check', 'type': {'one': tn}}, 'target': sj}
+            yield {'spec': {'k': 'check', 'instance_of': {'one': tn}}, 'target': sj}
     # callables without __name__ that reject: alone and under Or / Not / Switch / a list pattern
     for form in PRED_FORMS:
         for fn in ('never', 'raises_value', 'ret_zero', 'is_pos', 'always'):
@@ -1187,7 +1209,12 @@ def scalar_tree_cases(rng, n):
 
 
 TYPE_ATOMS = ['int', 'str', 'bool', 'float', 'dict', 'list', 'tuple', 'object', 'NoneType', 'set', 'frozenset'] + \
-    META_TYPE_NAMES + INSTANCE_DEPENDENT + ['Rec', 'K0']
+    META_TYPE_NAMES + INSTANCE_DEPENDENT + ['Rec', 'K0', 'MyDict', 'MyStr']
+
+
+SUB_REPS_J = [{'sub': 'MyDict', 'v': {'d': [[{'s': 'a'}, {'i': 1}]]}}, {'sub': 'MyList', 'v': {'l': [{'i': 1}]}},
+              {'sub': 'MyTuple', 'v': {'t': []}}, {'sub': 'MySet', 'v': {'set': [{'i': 1}]}},
+              {'sub': 'MyStr', 'v': {'s': 'red'}}]
 
 
 def class_reps():
@@ -1195,7 +1222,7 @@ def class_reps():
     O = lambda tag: dec_v({'obj': tag})
     return [None, True, 0, 3, 2.5, 'red', '', [], [1], (), (1, 'a'), {}, {'a': 1}, {1}, frozenset({1}),
             Obj('o1'), O('Rec#b'), O('Rec#a+label'), O('Rec#f+flag'), O('Rec#c+label+flag'), O('K0#k'), O('K1#k+flag'),
-            O('Color#RED'), O('Tagged#t1')]
+            O('Color#RED'), O('Tagged#t1')] + [dec_v(j) for j in SUB_REPS_J]
 
 
 def type_tree_cases(rng, n, per_tree):
